@@ -119,6 +119,7 @@ class StrFold:
     def __init__(self, ev):
         self.ev = ev
         self.unknown = []          # operations on abstract strings that were not folded
+        self.panics = []           # unwrap / expect applied to a None / Err value on some folded path
         self.preconditions = []    # counts assumed non-negative
 
     # -------------------------------------------------------------- lengths and numbers
@@ -232,6 +233,10 @@ class StrFold:
         if m == "unwrap" or m == "expect":
             if a0 is not None and a0[0] == "v" and a0[1] in ("Some", "Ok") and a0[2]:
                 return a0[2][0]
+            if a0 is not None and a0[0] == "v" and a0[1] in ("None", "Err"):
+                self.panics.append("%s on %s" % (m, a0[1]))
+            else:
+                self.unknown.append("%s on a value that is not known to be Some / Ok" % m)
             return None
         # ---- saturating / checked arithmetic on lengths and counts (the count is assumed not to go below zero: recorded as a precondition)
         if m in ("saturating_sub", "wrapping_sub") and len(args) == 2 and "core::num::" in c and ev.as_lin(a0) is not None and ev.as_lin(args[1]) is not None:
@@ -337,6 +342,10 @@ class StrFold:
         # ---- fully literal text: the operation is computed on the text itself
         if all(a[0] in ("c", "sgn") for a in s0[1]):
             txt = "".join(text_of(a) for a in s0[1])
+            cs = args[1] if len(args) == 2 and isinstance(args[1], tuple) and args[1][0] in ("array", "iterv") and isinstance(args[1][1], list) else None
+            if cs is not None and all(x[0] == "lit" and isinstance(x[1], str) and len(x[1]) == 1 for x in cs[1]) and m in ("trim_start_matches", "trim_end_matches", "trim_matches"):
+                chars = "".join(x[1] for x in cs[1])
+                return mk([("c", {"trim_start_matches": txt.lstrip, "trim_end_matches": txt.rstrip, "trim_matches": txt.strip}[m](chars))])
             if pat is not None and len(args) == 2:
                 conc = {"trim_start_matches": lambda: txt.lstrip(pat) if len(pat) == 1 else None, "trim_end_matches": lambda: txt.rstrip(pat) if len(pat) == 1 else None,
                         "contains": lambda: pat in txt, "starts_with": lambda: txt.startswith(pat), "ends_with": lambda: txt.endswith(pat),
@@ -461,6 +470,8 @@ class StrFold:
                 self.preconditions.append(cnt)
             if cnt[0] == "lit" and cnt[1] <= 0:
                 return mk([])
+            if cnt[0] == "lit" and cnt[1] <= 10000:
+                return mk([("c", "0" * cnt[1])])
             return mk([("z", cnt)])
         if cnt[0] == "lit":
             return mk([("c", text * max(0, cnt[1]))])
